@@ -61,6 +61,14 @@ func (env *Env) method(pkg, typ, name string) *ssa.Function {
 	return f
 }
 
+// via runs rules that belong to another property and includes their
+// obligations in this property's result (rule ids Cxx/VIA-Cyy/...).
+func (env *Env) via(prop string, run func(*Env)) {
+	sub := &Env{P: env.P, R: check.NewResult(prop), Tier: env.Tier}
+	run(sub)
+	env.R.Include(sub.R)
+}
+
 // engine creates an engine with the named repository functions as atoms.
 func (env *Env) engine(atoms ...string) *flow.Engine {
 	e := flow.NewEngine(env.P)
